@@ -410,6 +410,29 @@ pub fn gen_doc_star_exotic(rng: &mut Rng) -> DocSpec {
     }
 }
 
+/// Exotic-but-legal shape: a doc attribute whose value is a macro call
+/// (`#[doc = concat!(..)]`, the `#[doc = include_str!(..)]` idiom).  rustdoc
+/// shows the text; an attribute macro sees the unexpanded call.
+pub fn gen_doc_macro_exotic(rng: &mut Rng) -> DocSpec {
+    let a = text_line(rng, 3);
+    let b = text_line(rng, 3);
+    let mut src = vec![format!("#[doc = concat!(\"{}\", \" \", \"{}\")]", esc_str(&a), esc_str(&b))];
+    let mut text = vec![format!("{a} {b}")];
+    if rng.bool() {
+        let c = text_line(rng, 4);
+        src.push("///".to_string());
+        src.push(format!("/// {c}"));
+        text.push(String::new());
+        text.push(c);
+    }
+    DocSpec {
+        shape: "macro-valued-doc-attr".to_string(),
+        src,
+        text,
+        exotic: Some("doc-attribute-with-macro-value"),
+    }
+}
+
 #[cfg(test)]
 mod tests {
     use super::*;
